@@ -7,6 +7,7 @@ import (
 	"os"
 	"path/filepath"
 	"runtime"
+	"runtime/pprof"
 	"sort"
 	"strings"
 	"time"
@@ -53,8 +54,15 @@ var (
 	flagMutant = flag.String("mutant", "", "overlay replacement file:path pairs (comma separated real=replacement) for self-tests")
 )
 
+var flagProf = flag.String("cpuprofile", "", "write cpu profile")
+
 func main() {
 	flag.Parse()
+	if *flagProf != "" {
+		f, _ := os.Create(*flagProf)
+		pprof.StartCPUProfile(f)
+		defer pprof.StopCPUProfile()
+	}
 	args := flag.Args()
 	if len(args) < 1 {
 		fmt.Fprintln(os.Stderr, "usage: gosx [flags] check <spec.json> <quick|thorough>")
@@ -75,7 +83,11 @@ func main() {
 		if t := os.Getenv("VERIF_TIER"); t != "" && len(args) <= 2 {
 			tier = t
 		}
-		os.Exit(runCheck(args[1], tier))
+		code := runCheck(args[1], tier)
+		if *flagProf != "" {
+			pprof.StopCPUProfile()
+		}
+		os.Exit(code)
 	default:
 		fmt.Fprintln(os.Stderr, "unknown command", args[0])
 		os.Exit(2)
